@@ -29,6 +29,7 @@ import numpy as np
 from lib import core, gen, graphcap
 
 EXTRACTORS = ["Generic"]
+EXTRA_PROPS = ["C17Lower"]
 BACKENDS = ["numpy", "numpy.numpylike", "numpy.einsum"]
 FORBIDDEN = (ast.For, ast.AsyncFor, ast.While, ast.If, ast.IfExp, ast.ListComp, ast.SetComp, ast.DictComp, ast.GeneratorExp,
              ast.Lambda, ast.Try, ast.With, ast.AsyncWith, ast.Match, ast.BoolOp, ast.NamedExpr, ast.Await, ast.Yield, ast.YieldFrom,
@@ -524,7 +525,9 @@ def run(ctx):
         ctx.tie_broken("extract:emitter-keyword", f"compiler/python/__init__.py:{ln}: emitted text fragment {v!r} contains a control-flow keyword")
     ctx.extra["size_sites"] = len(facts.get("sites", []))
     ctx.extra["lower_size_generic"] = ("stb_size_generic proved for _squeeze_transpose_broadcast; lower_size_generic_partial for id on flat expressions (hypothesis: final no-op test); "
-                                       "flattened axes, concatenation, diagonal, reduce, elementwise, dot, get_at/update_at, argfind rest on the stb_model tie, the source obligation and the search")
+                                       "stbU_size_generic (broadcast_to_unitary=True) and expr_to_axis_size_generic (Props/C17Lower.lean) for the pieces of the elementwise / reduce lowering; "
+                                       "the whole elementwise / reduce pipelines rest on the lower_model tie (model = traced graph, equal model skeletons over three assignments); "
+                                       "flattened axes, concatenation, diagonal, dot, get_at/update_at, argfind rest on the stb_model tie, the source obligation and the search")
 
     calls = []
     for c in EXTRA_CALLS:
@@ -568,6 +571,9 @@ def run(ctx):
             break
     if ctx.driver_ok:
         stb_tie(ctx, n_stb)
+        # the lowering models of elementwise operations and reductions (Generic/LowerOps.lean) against traced graphs
+        from props import lower_tie
+        lower_tie.lower_tie(ctx, n_stb, SizedCall, variants)
     ctx.extra["traces_validated_against_impl"] = ctx.extra.get("texts_checked", 0) + ctx.extra.get("graphs_validated", 0)
 
 
